@@ -267,9 +267,9 @@ def build_tissue(spec, frame=0):
             perm = list(range(1, len(keys) + 1))
             r.shuffle(perm)
             return {k: perm[i] for i, k in enumerate(keys)}
-        # gaps
+        # gaps (optionally starting at a huge number)
         out = {}
-        cur = r.randint(0, 5)
+        cur = r.randint(0, 5) if mode != "huge" else 1_000_000 + r.randint(0, 50)
         order = keys[:]
         r.shuffle(order)
         for k in order:
@@ -333,7 +333,7 @@ def random_spec(rng, *, max_side=6, kmax=40, for_solver=False, frames=1, min_rid
     for _ in range(200):
         nx = rng.randint(2, max_side)
         ny = rng.randint(2, max_side)
-        if for_solver and nx * ny < 6:
+        if for_solver and nx * ny < 4:
             continue
         spec = {"kind": "voronoi", "nx": nx, "ny": ny, "sseed": rng.randrange(10 ** 9),
                 "jitter": round(rng.uniform(0.05, 0.3), 3), "hex": rng.random() < 0.7}
@@ -350,7 +350,7 @@ def random_spec(rng, *, max_side=6, kmax=40, for_solver=False, frames=1, min_rid
         adj = cell_adjacency(spec)
         keep = set(range(n))
         if mode == "grow":
-            target = rng.randint(1 if not for_solver else 6, n)
+            target = rng.randint(1 if not for_solver else 3, n)
             start = rng.randrange(n)
             keep = {start}
             frontier = sorted(adj[start])
@@ -381,7 +381,7 @@ def random_spec(rng, *, max_side=6, kmax=40, for_solver=False, frames=1, min_rid
                 cur = rng.choice(nb)
                 keep.add(cur)
         spec["keep"] = sorted(keep)
-        if for_solver and len(keep) < 6:
+        if for_solver and len(keep) < 3:
             continue
         pm = rng.choice(["const", "mixed", "mixed"])
         km = kmax if not for_solver else min(kmax, 16)
@@ -399,7 +399,7 @@ def random_spec(rng, *, max_side=6, kmax=40, for_solver=False, frames=1, min_rid
                                     [round(-span, 1), round(-span * 0.7, 1)],
                                     [round(span * 2, 1), round(rng.uniform(-span, span), 1)]])
         spec["orient"] = rng.choice(["ccw", "cw", "mixed"])
-        spec["ids"] = rng.choice(["contig0", "contig1", "gaps", "shuffle"])
+        spec["ids"] = rng.choice(["contig0", "contig1", "gaps", "shuffle", "gaps", "huge"])
         if frames > 1:
             spec["motion"] = {"amp": round(rng.choice([0.0, 0.004, 0.01, 0.01, 0.06]), 4),
                               "drift": [round(rng.uniform(-0.01, 0.01), 4), round(rng.uniform(-0.01, 0.01), 4)],
